@@ -7,6 +7,9 @@ _BIN = { ast.Add: operator.add, ast.Sub: operator.sub, ast.Mult: operator.mul, a
 _UN = { ast.USub: operator.neg, ast.UAdd: operator.pos, ast.Invert: operator.invert, ast.Not: operator.not_ }
 
 
+_PURE_STR_METHODS = ( 'startswith', 'endswith', 'lower', 'upper', 'strip', 'lstrip', 'rstrip', 'isdigit', 'split', 'replace', 'zfill', 'encode', 'decode' )
+
+
 class NoFold( Exception ):
     pass
 
@@ -88,6 +91,19 @@ def fold( e, env=None ):
             if all( fold( c, env2 ) for c in g.ifs ):
                 out.append( fold( e.elt, env2 ))
         return out
+    if isinstance( e, ast.Call ) and isinstance( e.func, ast.Attribute ) and e.func.attr in _PURE_STR_METHODS and not e.keywords:
+        # side-effect-free methods of str / bytes constants (table lookup on constants, nothing of the repository runs)
+        try:
+            base = fold( e.func.value, env )
+        except NoFold:
+            base = None
+        if isinstance( base, ( str, bytes )):
+            try:
+                return getattr( base, e.func.attr )( *[ fold( a, env ) for a in e.args ] )
+            except NoFold:
+                raise
+            except Exception as exc:
+                raise NoFold( str( exc ))
     if isinstance( e, ast.Call ) and isinstance( e.func, ast.Attribute ) and e.func.attr in ( 'get', ) and not e.keywords and len( e.args ) in ( 1, 2 ):
         try:
             base = fold( e.func.value, env )
